@@ -281,6 +281,9 @@ fn judge<F: Fl>(c: &Case, levels: &[f64], l: &mut Local) {
         Prod::Paired => {
             let mut bs = c.b.clone();
             bs.n = c.a.n;
+            if c.a.family == Family::Constant {
+                bs.family = Family::Constant; // constant difference
+            }
             let b: Vec<F> = conv(&sample(&bs));
             let mut st = Paired::<F>::default();
             st.extend(&a, &b).unwrap();
@@ -350,7 +353,13 @@ fn make_case(seed: u64, i: u64) -> Case {
     // every 45th input lies beyond the t -> z switch (n > 100 001): the normal branch is a separate code path
     let na = if i % 45 == 44 { 100_200 + (i % 7) as usize } else { sci_common::gen::pick_len(&mut r, i / 18, &[5000]) };
     let nb = sci_common::gen::pick_len(&mut r, i / 18 + 5, &[700]);
-    let a = Spec { family: fam(&mut r), n: na, seed: r.next_u64(), f32, positive };
+    let mut a = Spec { family: fam(&mut r), n: na, seed: r.next_u64(), f32, positive };
+    // every 30th mean-type input is a constant sample (zero variance: degenerate interval, but the
+    // kind of the result must still follow the confidence)
+    if i % 30 == 17 && matches!(prod, Prod::Arithmetic | Prod::Paired | Prod::Geometric | Prod::Harmonic) {
+        a.family = Family::Constant;
+        a.n = na.min(50);
+    }
     let b = Spec { family: fam(&mut r), n: nb, seed: r.next_u64(), f32, positive };
     let (n, k, q) = match prod {
         Prod::Proportion => {
@@ -380,6 +389,12 @@ pub fn run(run: &Arc<Run>) {
          (a) one-sided(L) bound = two-sided(2L-1) bound (bit-exact at dyadic L, 1e-12 of the half-width otherwise; ranks exactly), (b) CI(L1) included in CI(L2) for all ordered level pairs at least 1e-3 apart in probability, judged by the crate's includes() and by the extended-real model on the raw bounds, \
          (c) two-sided intervals and one-sided ones at L >= 1/2 contain the point estimate (ranks: within one position), (d) result kind / natural far ends match the confidence. distinct = (producer, confidence, interval) fingerprints.",
     );
+    if let Some(case) = run.replay_case.as_ref().filter(|c| c["what"] == "order") {
+        let mut l = run.local();
+        crate::props::purity::order_independence("kind/level coherence", seed, case["i"].as_u64().unwrap(), &mut l);
+        run.absorb(l);
+        return;
+    }
     if let Some(case) = &run.replay_case {
         let c: Case = serde_json::from_value(case.clone()).expect("case");
         let mut l = run.local();
@@ -391,10 +406,16 @@ pub fn run(run: &Arc<Run>) {
         run.absorb(l);
         return;
     }
+    // the same query must give the same interval whatever was asked before (kinds at one level
+    // back to back, states whose dof share an integer part, ...)
+    run.par(run.cfg.by(150u64, 3000), |i, l| crate::props::purity::order_independence("kind/level coherence", seed, i, l));
     let n = run.cfg.by(6_000u64, 600_000);
     run.par(n, |i, l| {
         let c = make_case(seed, i);
         l.count_s(format!("producer:{:?}", c.prod));
+        if c.a.family == Family::Constant {
+            l.count("constant (zero-variance) input");
+        }
         if c.a.n > 100_001 {
             l.count("input beyond the t->z switch (n > 100 001)");
         }
@@ -404,7 +425,7 @@ pub fn run(run: &Arc<Run>) {
             judge::<f64>(&c, &levels, l)
         }
     });
-    let mut req: Vec<String> = vec!["result kind judged".into(), "point estimate containment judged".into(), "2L-1 identity judged".into(), "2L-1 identity judged bit-exactly (dyadic level)".into(), "nesting judged".into(), "input beyond the t->z switch (n > 100 001)".into()];
+    let mut req: Vec<String> = vec!["result kind judged".into(), "point estimate containment judged".into(), "2L-1 identity judged".into(), "2L-1 identity judged bit-exactly (dyadic level)".into(), "nesting judged".into(), "input beyond the t->z switch (n > 100 001)".into(), "constant (zero-variance) input".into(), "order-independence groups judged".into()];
     for p in PRODS {
         req.push(format!("producer:{:?}", p));
     }
